@@ -23,7 +23,11 @@ MENU = (np.array([0.31, 0.77, 0.52]), np.array([0.93, 0.12, 0.64]))
 CONST_DRAW = np.array([0.31, 0.77, 0.52])
 QUICK_CUBE = ('generic', 'col_x', 'col_z')
 INPLACE = ((0, 1), (5, 0), (25, 2))
-INPLACE_BENT = ((0, 1), (5, 0), (25, 1))       # (rotation index, translation index) applied to the construction object in place
+INPLACE_BENT = ((0, 1), (5, 0), (25, 1))
+TINY_TR = np.array([1e-6, -2e-6, 0.5e-6])
+# extra bonded partners of the hub atom 10 of a 20-atom chain (besides 9 and 11): as a hash set of small integers these
+# neighbour sets iterate in another order once the topology has been copied
+HUB_EXTRAS = ((2, 3, 4, 5, 17), (2, 3, 17), (3, 4, 5, 16, 17), (5, 6, 17, 18), (1, 2, 3, 4, 17))       # (rotation index, translation index) applied to the construction object in place
 
 
 _ROT = {}
@@ -96,16 +100,17 @@ class C02(Check):
     def units(self, tier, seed):
         nmax = 5 if tier == 'thorough' else 4
         self.bounds = {'ref_atoms': [1, nmax], 'graphs': {n: len(xm.ref_graphs(n)) for n in range(3, nmax + 1)},
-                       'geometry_classes': list(xm.GEO) + list(xm.BENT), 'two_atom_axis_classes': list(AX2),
+                       'geometry_classes': list(xm.GEO) + list(xm.BENT) + list(xm.NEAR), 'two_atom_axis_classes': list(AX2),
                        'targets': [list(t) for t in TARGETS], 'scale_factors': list(SCALES),
                        'rotations': 27, 'translations': 3,
                        'full_cube_group_on': {'n<=4': list(QUICK_CUBE) if tier != 'thorough' else list(xm.GEO), 'n=5': list(QUICK_CUBE)}, 'draw_menu': [3, 3], 'tolerance_nm': TOL}
         u = []
         for n in range(3, nmax + 1):
-            for geo in list(xm.GEO) + list(xm.BENT):
+            for geo in list(xm.GEO) + list(xm.BENT) + list(xm.NEAR):
                 full = (tier == 'thorough' and n <= 4) or geo in QUICK_CUBE
                 mod = {3: 1, 4: 18 if full else 3, 5: 96 if full else 16}[n]
                 u += [{'k': 'g', 'n': n, 'geo': geo, 'mod': mod, 'r': r} for r in range(mod)]
+        u += [{'k': 'hub', 'hub': h} for h in range(len(HUB_EXTRAS))]
         u += [{'k': 'ref2', 'ax': ax} for ax in AX2]
         u.append({'k': 'ref1'})
         return u
@@ -123,6 +128,9 @@ class C02(Check):
                     for s in SCALES:
                         yield {'k': 'g', 'n': n, 'edges': edges, 'geo': unit['geo'], 'm': m, 'place': place,
                                's': s, 'rs': rs}
+        elif unit['k'] == 'hub':
+            for s in SCALES:
+                yield {'k': 'hub', 'hub': unit['hub'], 's': s}
         elif unit['k'] == 'ref2':
             for bonded in (1, 0):
                 for s in SCALES:
@@ -137,7 +145,10 @@ class C02(Check):
 
     # ------------------------------------------------------------------
     def check_case(self, case, R, seed):
-        if case['k'] == 'g':
+        if case['k'] == 'hub':
+            with owned_random(Draws([CONST_DRAW])):
+                self._hub(case, R, seed)
+        elif case['k'] == 'g':
             with owned_random(Draws([CONST_DRAW])):
                 self._general(case, R, seed)
         else:
@@ -163,6 +174,59 @@ class C02(Check):
         for ri, ti in (INPLACE_BENT if case.get('geo') in xm.BENT else INPLACE):
             yield ri, ti, rots[ri], TRANSL[ti], True
 
+    def _with_tiny(self, case, seed):
+        """The motions of the case, preceded by a TINY translation (1e-6 nm, index -1) applied right after map(ref):
+        the configuration mapped just before differs from it by less than any sensible tolerance, the result must
+        still follow.  A moved reference with its OWN topology (deep copy) is motion index -2."""
+        if 'rot' not in case or case.get('tr') == -1:
+            yield 0, -1, np.eye(3), TINY_TR, False
+            if case.get('tr') == -1:
+                return
+        yield from self._motions(case, seed)
+
+    def _hub(self, case, R, seed):
+        """A 20-atom chain with a hub atom bonded to many others (its bonded indices do not iterate in ascending
+        order as a hash set), moved as an object with its OWN topology (deep copy): the frame of the hub is still
+        built on its two LOWEST-numbered bonded atoms."""
+        from gaddlemaps import ExchangeMap
+        from mcx.build import generic_points
+        n, h, s = 20, 10, case['s']
+        edges = [(i, i + 1) for i in range(n - 1)] + [(min(h, j), max(h, j)) for j in HUB_EXTRAS[case['hub']]]
+        rpos = generic_points(n, seed, tag=118) * 1.5
+        anch = xm.anchors(n, edges)
+        G = xm.direction_table(seed)
+        tpos = np.array([rpos[h] + 0.03 * G[0], rpos[h] + 0.04 * G[1], rpos[h] - 0.035 * G[2]])
+        if any(a != h for a in xm.ref_map(rpos, anch, tpos, s)[0]):
+            raise RuntimeError('hub targets not anchored at the hub')
+        ref = xm.ref_molecule(n, edges)
+        ref.atoms_positions = rpos.copy()
+        tgt = xm.tgt_molecule(3)
+        tgt.atoms_positions = tpos.copy()
+        try:
+            emap = ExchangeMap(ref, tgt, s)
+            base = emap(ref).atoms_positions
+        except Exception as ex:
+            R.violation('hub/build/exception', case, repr(ex))
+            return
+        rots = rotations(seed)
+        for how in ('copy', 'deep_copy'):
+            for ri in ([case['rot']] if 'rot' in case else (24, 25, 26, 5)):
+                d = dict(case, rot=ri, how=how)
+                if 'how' in case and case['how'] != how:
+                    continue
+                moved = ref.copy() if how == 'copy' else ref.deep_copy()
+                tr = TRANSL[1]
+                moved.atoms_positions = rpos @ rots[ri].T + tr
+                try:
+                    out = emap(moved).atoms_positions
+                except Exception as ex:
+                    R.violation('hub/call/exception', d, repr(ex))
+                    continue
+                err = float(np.abs(out - (base @ rots[ri].T + tr)).max())
+                R.case(d, nontrivial=True, cls=f"hub{case['hub']}/{how}", outcome='full-equality')
+                if not err <= TOL:
+                    R.violation(f'hub/{how}/not-equivariant', d, f'|map(R ref+t) - (R map(ref)+t)| = {err:.3e}')
+
     def _general(self, case, R, seed):
         from gaddlemaps import ExchangeMap
         n, edges, geo, m, place, s = (case[x] for x in ('n', 'edges', 'geo', 'm', 'place', 's'))
@@ -171,7 +235,9 @@ class C02(Check):
         rpos = xm.ref_positions(geo, n, seed)
         tpos = xm.target_positions(rpos, anch, m, place, seed)
         assign, _, _ = xm.ref_map(rpos, anch, tpos, s)
-        degenerate = [xm.exactly_collinear(rpos, a, fn[a]) for a in assign]
+        # anchors within ~1e-9 of collinear (classes NEAR) leave the axis undetermined in practice: like the exactly
+        # collinear ones they are judged by the three invariants of the statement
+        degenerate = [geo in xm.NEAR or xm.exactly_collinear(rpos, a, fn[a]) for a in assign]
         ref = xm.ref_molecule(n, edges)
         ref.atoms_positions = rpos.copy()
         tgt = xm.tgt_molecule(m)
@@ -191,7 +257,7 @@ class C02(Check):
             return
         moved = ref.copy()
         kind = 'axis-invariants' if all(degenerate) else ('full-equality' if not any(degenerate) else 'mixed')
-        for ri, ti, rot, tr, inplace in self._motions(case, seed):
+        for ri, ti, rot, tr, inplace in self._with_tiny(case, seed):
             cdesc = dict(case, rot=ri, tr=ti, inplace=int(inplace))
             mpos = rpos @ rot.T + tr
             obj = ref if inplace else moved
